@@ -576,7 +576,8 @@ func runC17(p *an.Prog, r *an.Run, tier string) {
 			if !an.IsFunc(an.CallObj(c), "encoding/json", "NewDecoder") {
 				continue
 			}
-			d := p.Derives(0, c.Common().Args[0])
+			region := regionFuncs(p, fn)
+			d := p.DerivesIn(fn, 2, c.Common().Args[0])
 			if !d.HasParam(recv) {
 				continue // per-call reader
 			}
@@ -584,7 +585,7 @@ func runC17(p *an.Prog, r *an.Run, tier string) {
 			held := false
 			for _, nd := range d.Nodes {
 				if fv := an.FieldOf(nd); fv != nil {
-					if root, _ := an.RootPath(nd); root == ssa.Value(recv) && hasReadMethod(fv.Type()) {
+					if root, _ := an.RootPath(nd); p.Resolve(root) == ssa.Value(recv) && hasReadMethod(fv.Type()) {
 						held = true
 					}
 				}
@@ -609,25 +610,27 @@ func runC17(p *an.Prog, r *an.Run, tier string) {
 			// (b) Buffered() remainder stored (possibly copied) into a receiver field that feeds the next decoder
 			if !kept {
 				var bufCall ssa.CallInstruction
-				for _, bc := range an.Calls(fn, false) {
-					if f := an.CallObj(bc); f != nil && f.Name() == "Buffered" && bc.Common().Args[0] == dec {
-						bufCall = bc
+				for _, rf := range region {
+					for _, bc := range an.Calls(rf, false) {
+						if f := an.CallObj(bc); f != nil && f.Name() == "Buffered" && p.Resolve(bc.Common().Args[0]) == dec {
+							bufCall = bc
+						}
 					}
 				}
 				if bufCall == nil {
 					why = append(why, "the decoder's Buffered() remainder is never taken")
 				} else {
-					an.AllInstrs(fn, func(in ssa.Instruction) {
+					visit := func(in ssa.Instruction) {
 						st, ok := in.(*ssa.Store)
 						if !ok {
 							return
 						}
 						root, _ := an.RootPath(st.Addr)
 						fv := an.FieldOf(st.Addr)
-						if root != ssa.Value(recv) || fv == nil || !hasReadMethod(fv.Type()) {
+						if p.Resolve(root) != ssa.Value(recv) || fv == nil || !hasReadMethod(fv.Type()) {
 							return
 						}
-						ds := p.Derives(0, st.Val)
+						ds := p.DerivesIn(fn, 2, st.Val)
 						if !ds.HasValue(bufCall.Value()) {
 							return
 						}
@@ -661,15 +664,35 @@ func runC17(p *an.Prog, r *an.Run, tier string) {
 							}
 						}
 						kept = true
+						// the save itself, or the call (in fn) of the helper that performs it on all of its paths
+						gate := ssa.Instruction(st)
+						if st.Parent() != fn {
+							gate = nil
+							if an.PathAvoiding(st.Parent(), nil, func(x ssa.Instruction) bool { return x == ssa.Instruction(st) }, an.IsReturn, nil) == nil {
+								for _, hc := range an.Calls(fn, false) {
+									if hc.Common().StaticCallee() == st.Parent() {
+										gate = hc.(ssa.Instruction)
+									}
+								}
+							}
+							if gate == nil {
+								kept = false
+								why = append(why, "the remainder is saved in "+an.FuncName(st.Parent())+", which "+an.FuncName(fn)+" does not call on every path (or which can return without saving)")
+								return
+							}
+						}
 						for _, dc := range an.Calls(fn, false) {
 							if g := an.CallObj(dc); g != nil && g.Name() == "Decode" && dc.Common().Args[0] == dec {
-								if in := an.PathAvoiding(fn, dc.(ssa.Instruction), func(x ssa.Instruction) bool { return x == ssa.Instruction(st) }, an.IsReturn, nil); in != nil {
+								if in := an.PathAvoiding(fn, dc.(ssa.Instruction), func(x ssa.Instruction) bool { return x == gate }, an.IsReturn, nil); in != nil {
 									kept = false
 									why = append(why, "a path returns at "+p.Pos(in.Pos())+" without saving the decoder's buffered remainder")
 								}
 							}
 						}
-					})
+					}
+					for _, rf := range region {
+						an.AllInstrs(rf, visit)
+					}
 				}
 			}
 			r.Check(kept, "no-readahead-loss", name, c.Pos(), "the decoder's read-ahead survives the call", "%s builds a json.Decoder on the connection's stream for one message and drops it: whatever it read past that message (a second message that arrived in the same read) is lost; %s", name, strings.Join(why, "; "))
